@@ -13,6 +13,7 @@ import (
 	"sort"
 	"strings"
 	"sync"
+	"syscall"
 	"time"
 
 	"github.com/boombuler/barcode"
@@ -467,13 +468,45 @@ func (p c16) Run(par *fw.Parent) *fw.Result {
 			}
 			go func() { done <- cmd.Wait() }()
 			var err error
-			select {
-			case err = <-done:
-			case <-time.After(15 * time.Minute):
-				cmd.Process.Kill()
-				err = fmt.Errorf("outer watchdog")
+			// A process whose CPU time stands still has every goroutine blocked.  That is
+			// a state, not a deadline: it is confirmed by the goroutine dump (SIGQUIT);
+			// the wall clock only decides when to look.
+			idle, lastCPU, began, stalled := 0, -1.0, time.Now(), false
+		wait:
+			for {
+				select {
+				case err = <-done:
+					break wait
+				case <-time.After(500 * time.Millisecond):
+					cpu := fw.CPUSeconds(cmd.Process.Pid)
+					if cpu >= 0 && cpu-lastCPU < 0.02 {
+						idle++
+					} else {
+						idle, lastCPU = 0, cpu
+					}
+					if idle >= 40 && !stalled {
+						stalled = true
+						cmd.Process.Signal(syscall.SIGQUIT)
+					}
+					if stalled && idle >= 80 {
+						cmd.Process.Kill()
+					}
+					if time.Since(began) > 20*time.Minute {
+						cmd.Process.Kill()
+						err = fmt.Errorf("outer watchdog")
+					}
+				}
 			}
 			e.Close()
+			if stalled {
+				dump := headFileLocal(ef, 60000)
+				pr := procRes{note: fmt.Sprintf("process %s stopped consuming CPU", d.ID), dir: dir}
+				if g := blockedInLibrary(dump); g != "" {
+					pr.deadlock = "all goroutines are asleep (no CPU consumed); blocked inside the library:\n" + g
+				}
+				results[i] = pr
+				return
+			}
 			var o raceOut
 			ob, rerr := os.ReadFile(of)
 			if rerr != nil || json.Unmarshal(ob, &o) != nil {
@@ -608,6 +641,34 @@ func (p c16) Run(par *fw.Parent) *fw.Result {
 		merged.Samples = append(merged.Samples, b)
 	}
 	return merged
+}
+
+// blockedInLibrary returns the first goroutine of a dump that is blocked on a
+// channel / select / semaphore with a library frame on its stack.
+func blockedInLibrary(dump string) string {
+	for _, g := range strings.Split(dump, "\n\n") {
+		if !strings.HasPrefix(g, "goroutine ") {
+			continue
+		}
+		head := g
+		if i := strings.IndexByte(g, '\n'); i >= 0 {
+			head = g[:i]
+		}
+		if !(strings.Contains(head, "chan receive") || strings.Contains(head, "chan send") || strings.Contains(head, "select") || strings.Contains(head, "semacquire") || strings.Contains(head, "sync.")) {
+			continue
+		}
+		body := g
+		if i := strings.Index(body, "created by"); i >= 0 {
+			body = body[:i]
+		}
+		if strings.Contains(body, "github.com/boombuler/barcode") {
+			if len(g) > 2500 {
+				g = g[:2500]
+			}
+			return g
+		}
+	}
+	return ""
 }
 
 func max64(a, b int64) int64 {
